@@ -52,6 +52,17 @@ def c01(res: CheckResult) -> None:
               list(F.fam_badkw(res.tier, rng)), ic)
     call_unit(res, "sync / coroutine-function / coroutine-returning / awaitable-returning conditions and captures on "
                    "sync and async callables", list(F.fam_async_placements(res.tier, rng)), ic)
+    # the preconditions are evaluated on the very objects the body receives (binding of the call's arguments)
+    from icv import bindcheck as B
+    from icv.result import MachineryError as _ME
+    rb, vectors = B.model_check_bind(3, 4)
+    if not rb.ok:
+        raise _ME("ICBind: {}".format(rb.violated or rb.error))
+    res.states += rb.distinct
+    res.transitions += rb.states
+    st = B.replay_vectors(res, vectors, ic, only_roles=("pre", "prekw", "predef", "prebm"))
+    res.traces += st["calls"]
+    res.add_unit("signatures x call shapes: what the preconditions see is what the body receives", **st)
     from icv.checks_call import conc_unit
     conc_unit(res, "concurrent asyncio callers of the same function / object (fresh / inherited contexts): every call is "
                    "gated by its own preconditions", list(F.fam_conc(res.tier, rng, True)), ic, "async",
